@@ -121,7 +121,7 @@ HGT = st.sampled_from([0, 1, 2, 3, INF])
 
 
 @st.composite
-def coherent_costs(draw, labelled=True, maxv=3):
+def coherent_costs(draw, labelled=True, maxv=3, huge=True):
     """Cost vector inside spe + 2*sloss <= dup + 2*floss (labelled) or
     spe <= dup + 2*floss (plain), by construction."""
     if chance(draw, 1, 10):
@@ -135,7 +135,18 @@ def coherent_costs(draw, labelled=True, maxv=3):
         sloss = draw(st.integers(0, maxv))
         spe = draw(st.integers(0, min(maxv, dup + 2 * floss)))
     hgt = draw(HGT)
-    return {"SPECIATION": spe, "DUPLICATION": dup, "HORIZONTAL_TRANSFER": hgt, "FULL_LOSS": floss, "SEGMENTAL_LOSS": sloss}
+    c = {"SPECIATION": spe, "DUPLICATION": dup, "HORIZONTAL_TRANSFER": hgt, "FULL_LOSS": floss, "SEGMENTAL_LOSS": sloss}
+    if huge and chance(draw, 1, 12):
+        # unit costs are arbitrary non-negative integers: one of them far above the others (the region is kept: only its
+        # right-hand side or the transfer cost grows), or the whole vector scaled by a large odd factor - totals then
+        # need more than 6-9 significant digits and differences of one unit must still count
+        which = draw(st.sampled_from(["DUPLICATION", "FULL_LOSS", "HORIZONTAL_TRANSFER", "scale", "scale"]))
+        big = draw(st.sampled_from([1234567, 10**9 + 7, 10**12]))
+        if which == "scale":
+            c = {k: (v if v == INF else v * big) for k, v in c.items()}
+        elif c[which] != INF:
+            c[which] += big
+    return c
 
 
 @st.composite
